@@ -88,6 +88,29 @@ var vxC06Templates = []string{
 	"SELECT a FROM ( SELECT b FROM u ) AS %N",
 	"SELECT - a , a - - 1 FROM t",
 	"SELECT a FROM t FOR UPDATE",
+	"SELECT a FROM t WHERE b = '%S'",
+	"INSERT INTO t ( a ) VALUES ( '%S' )",
+	"SELECT DISTINCT ON ( a ) a , b FROM t",
+	"SELECT a FROM t LEFT JOIN u ON t.a = u.a CROSS JOIN v",
+	"SELECT a FROM t WHERE a NOT IN ( 1 , 2 ) AND b NOT BETWEEN 1 AND 2 AND c NOT LIKE 'x'",
+	"SELECT a FROM t WHERE a IN ( SELECT b FROM u )",
+	"SELECT COUNT ( DISTINCT a ) FROM t",
+	"SELECT a FROM t ORDER BY a ASC , b DESC NULLS FIRST",
+	"INSERT INTO t ( a ) SELECT b FROM u",
+	"INSERT INTO t ( a ) VALUES ( 1 ) , ( 2 )",
+	"UPDATE t SET a = 1 , b = 'x'",
+	"DELETE FROM t",
+}
+
+// string bodies: two symbolic bytes over the alphabet of the escaping rules
+var vxStrAlphabet = []int{'a', '\'', '\\', 'n', '"', '%', '_', ' '}
+
+func vxStrBody() string {
+	b := make([]byte, 2)
+	for k := range b {
+		b[k] = byte(vx.PickInt(vx.Small(len(vxStrAlphabet)), vxStrAlphabet))
+	}
+	return string(b)
 }
 
 func vxName() string {
@@ -107,6 +130,8 @@ func vxInstantiate(tpl string) string {
 				out += vxName()
 			case 'Q':
 				out += "\"" + vxName() + "\""
+			case 'S':
+				out += vxStrBody()
 			}
 			k++
 			continue
@@ -141,10 +166,39 @@ var vxFormatTexts = []string{
 	"update t set a = 1 where b = 2",
 	"delete from t where a = 1",
 	"with c as (select a from t) select a from c union all select b from u",
+	"select a from t where b = 'C:\\\\new\\\\table'",
+	"select a from t where b = 'it''s'",
 }
 
+// every statement template with fixed names, as Format input
+func vxAllFormatTexts() []string {
+	out := append([]string{}, vxFormatTexts...)
+	for _, tpl := range vxC06Templates {
+		t := ""
+		for k := 0; k < len(tpl); k++ {
+			if tpl[k] == '%' && k+1 < len(tpl) {
+				switch tpl[k+1] {
+				case 'N':
+					t += "nm"
+				case 'Q':
+					t += "\"nm\""
+				case 'S':
+					t += "s1"
+				}
+				k++
+				continue
+			}
+			t += string(tpl[k])
+		}
+		out = append(out, t)
+	}
+	return out
+}
+
+var vxFormatAll = vxAllFormatTexts()
+
 func VxC06_Format() {
-	sql := vxFormatTexts[vx.Choice(len(vxFormatTexts))]
+	sql := vxFormatAll[vx.Choice(len(vxFormatAll))]
 	opts := DefaultFormatOptions()
 	opts.IndentSize = vx.Choice(5)
 	opts.UppercaseKeywords = vx.Bool()
@@ -153,7 +207,10 @@ func VxC06_Format() {
 	vx.Notef("sql=%q indent=%d upper=%v semi=%v limit=%d", sql, opts.IndentSize, opts.UppercaseKeywords, opts.AddSemicolon, opts.SingleLineLimit)
 	f1, err := Format(sql, opts)
 	if err != nil {
-		vx.Assertf("C06.format_accepts", false, "Format rejects accepted input: %v", err)
+		if _, perr := Parse(sql); perr != nil {
+			return // the template itself is not an accepted input
+		}
+		vx.Assertf("C06.format_accepts", false, "Format rejects accepted input %q: %v", sql, err)
 		return
 	}
 	f2, err := Format(f1, opts)
